@@ -43,6 +43,17 @@ Definition range_ok (bs : Z) (olds : list (list byte)) (o : op) : Prop :=
   | OpRange f i s => exists d, znth olds f = Some d /\ 0 <= i /\ 1 <= s /\ i + s <= num_blocks bs (Z.of_nat (length d))
   end.
 
+(** what C01 assumes of the differ (proved of wsync.ComputeDiff by C11): for every new file
+    it emits at least one operation (an empty DATA op for an empty file), the operations
+    replay to the file against the old files, and every range is in bounds *)
+Definition diff_ok (bs : Z) (olds : list (list byte)) (differ : Z -> list byte -> list op) : Prop :=
+  forall pref data,
+    differ pref data <> [] /\ replay bs olds (differ pref data) = data /\ Forall (range_ok bs olds) (differ pref data).
+
+(** what Go's int64 fields can hold: fewer than 2^63 files, each shorter than 2^63 bytes *)
+Definition fits63 (b : build) : Prop :=
+  Z.of_nat (length (files_of b)) <= 2^63 /\ Forall (fun d => Z.of_nat (length d) < 2^63) (contents_of b).
+
 (** makeOpsWriter: one SyncOp per operation *)
 Definition op_msg (o : op) : pmsg :=
   match o with
